@@ -97,7 +97,20 @@ NEEDS.update({
  "h14": "multi-step: a random-port pod is set up a second time without a teardown in between",
  "h17": "state: dead container whose port file is corrupt (port clean-up keeps failing, state files never removed)",
 })
-OTHER = {'b02': ['C03', 'C05'], 'a04': ['C10'], 'd02': ['C06'], 'd09': ['C05', 'C06'], 'e06': ['C08', 'C05'], 'e01': ['C09', 'C05'], 'e10': ['C04'], 'e04': ['C01'], 'f13': ['C12'], 'd01': ['C04'], 'g02b': ['C06'], 'g10': ['C04'], 'g19': ['C06'], 'f16a': ['C15'], 'f15b': ['C16']}
+
+NEEDS.update({
+ "i02": "fault: the store delete inside the administrator's release fails after memory already freed the IP; then the pod returns",
+ "i04": "interleaving: stale-event check of pod-IP sync done before the pod lock; old pod unbound and replacement bound in the window",
+ "i06": "topology + reload: pools sharing a subnet with interleaved ranges (a range of B inside a gap of A), IP of B allocated, reload",
+ "i11": "input: posted entry whose key is a string prefix of the IP's current owner key (stale list page / ordinals 1 vs 10)",
+ "i13": "input: pod with two networks (common args attached to the first network only, args no longer carried forward)",
+ "i15": "input/state: foreign ipset named ip-*, sip-*, snet-*, dip-*, dnet-* (ownership test strips an absent prefix)",
+ "i16": "input: policy without policyTypes carrying egress rules only",
+ "i18": "input: CNI_ARGS entry without '=' (trailing ';', bare flag, empty string)",
+ "i19": "interleaving: metrics scrape overlapping a reload that changes the number of pools",
+ "i20": "input: last range ends exactly one address after the pool subnet",
+})
+OTHER = {'b02': ['C03', 'C05'], 'a04': ['C10'], 'd02': ['C06'], 'd09': ['C05', 'C06'], 'e06': ['C08', 'C05'], 'e01': ['C09', 'C05'], 'e10': ['C04'], 'e04': ['C01'], 'f13': ['C12'], 'd01': ['C04'], 'i02': ['C05'], 'i06': ['C09', 'C05'], 'i04': ['C01'], 'g02b': ['C06'], 'g10': ['C04'], 'g19': ['C06'], 'f16a': ['C15'], 'f15b': ['C16']}
 only = sys.argv[1:]
 for sid, (prop, pkg) in SEEDS.items():
     if only and sid not in only: continue
